@@ -45,7 +45,16 @@ def run_case(key, case_idx, tier, seed):
     Module.cache.clear()
     try:
         eng = Engine(REPO, c, S.REGISTRY, case)
-        fdef, clsname = eng.mod.find(c.qual)
+        try:
+            fdef, clsname = eng.mod.find(c.qual)
+        except KeyError:
+            # the function the contract is stated on is not in this tree any more (renamed, moved,
+            # merged into another one): nothing of it can be decided here - reported like any
+            # function outside the subset, the bounded part of the check still runs
+            out['status'] = 'out-of-subset'
+            out['why'] = 'function %s is not in %s any more' % (c.qual.split('#')[0], c.file)
+            out['wall_ms'] = 0
+            return out
         eng.cur_cls = clsname
         eng.number_loops(fdef)
         st = St()
@@ -123,9 +132,18 @@ def run_case(key, case_idx, tier, seed):
     except Unsupported as e:
         out['status'] = 'out-of-subset'
         out['why'] = str(e)
-    except Exception:
-        out['status'] = 'engine-error'
-        out['why'] = traceback.format_exc()[-1500:]
+    except Exception as e:
+        tb = traceback.extract_tb(e.__traceback__)
+        if tb and '/vf/contracts/' in tb[-1].filename:
+            # the exception comes out of the contract's own model (a hook or policy meeting code it
+            # was not written for): the model does not cover this source - undecided, like any
+            # function outside the subset; an exception inside the engine stays a checker error
+            out['status'] = 'out-of-subset'
+            out['why'] = 'the contract model does not cover this code (%s in %s:%d: %s)' % (
+                type(e).__name__, os.path.basename(tb[-1].filename), tb[-1].lineno, str(e)[:120])
+        else:
+            out['status'] = 'engine-error'
+            out['why'] = traceback.format_exc()[-1500:]
     out['wall_ms'] = int((time.time() - t0) * 1000)
     return out
 
